@@ -1,5 +1,6 @@
 import PysphVerif.Driver.Common
 import PysphVerif.Model.Nnps
+import PysphVerif.Model.NnpsStore
 /-!
 Line protocol for C01 (exact rationals):
 
@@ -10,7 +11,7 @@ answers one line
   `cs=<rat> hmin=<rat|none> P <d>:<s>:<l0>|<l1>|… P …`
 
 and `self …` (same arguments, meant for small inputs) additionally
-`grid=<ok|BAD> tree=<ok|BAD> cache=<ok|BAD>` after `hmin=`,
+`grid=<ok|BAD> tree=<ok|BAD> cache=<ok|BAD> store=<ok|BAD>` after `hmin=`,
 
 with one `P` block per (destination array d, source array s) in row order
 `d*narrays+s`; `l_i` is the brute-force neighbour list of destination particle
@@ -20,7 +21,10 @@ an empty destination array).  `grid` reports whether the Grid-family model
 returned the same lists (a self-test of the executable model; the theorem
 `nbrs_exact_grid` proves it must), `tree` the same for a one-level tree built
 by splitting the source array in index halves, `cache` for the cache model
-under a two-thread round-robin schedule.
+under a two-thread round-robin schedule, `store` for the five per-class storage
+models of `Model/NnpsStore.lean` (LinkedList head/next over flattened cells,
+BoxSort dense index, SpatialHash chains with table sizes 1 and 7, DictBoxSort,
+CellIndexing packed sorted keys with sufficient bit widths).
 
   `cell rs=<rat> tiny=<rat> H h=<rl> H h=<rl> …`  answers `cs=<rat> hmin=<rat|none>`.
 -/
@@ -85,6 +89,35 @@ def mkTree (src : List (Pt Rat)) : Tree Rat :=
 
 def sortNat (l : List Nat) : List Nat := (l.toArray.qsort (· < ·)).toList
 
+/-- smallest `b` with `m < 2^b` -/
+def bitsFor (m : Nat) : Nat := (List.range 33).find? (fun b => decide (m < 2 ^ b)) |>.getD 33
+
+def maxInt (l : List Int) : Int := l.foldl (fun m x => if m < x then x else m) 0
+
+/-- the five storage models against brute force for one (src, q) -/
+def storeOk (rs cs : Rat) (o : Pt Rat) (arrs : List (List (Pt Rat))) (s : Nat) (src : List (Pt Rat))
+    (q : Pt Rat) (bf : List Nat) : Bool :=
+  let allp := arrs.flatMap id
+  let cells := allp.map (cell3 Rat.floor cs o) ++ [cell3 Rat.floor cs o q]
+  let nc : Nat × Nat × Nat := ((maxInt (cells.map (·.1)) + 1).toNat,
+    (maxInt (cells.map (·.2.1)) + 1).toNat, (maxInt (cells.map (·.2.2)) + 1).toNat)
+  let n := src.length
+  let cellAt := cellAtOf Rat.floor cs o src
+  let cq := cell3 Rat.floor cs o q
+  let fin := fun (c : List Nat) => sortNat (nbrsOf rs src q c)
+  let ll := fin (llCands nc (nc.1 * nc.2.1 * nc.2.2) n cellAt cq)
+  let occ := occupied (allp.map (fun p => flattenCell nc (cell3 Rat.floor cs o p)))
+  let box := fin (boxCands nc occ n cellAt cq)
+  let sh1 := fin (shCands (spatialHash 1) n cellAt (hAtOf src) cq)
+  let sh7 := fin (shCands (spatialHash 7) n cellAt (hAtOf src) cq)
+  let items := (List.range arrs.length).flatMap (fun a =>
+    dictItems a (arrs.getD a []).length (cellAtOf Rat.floor cs o (arrs.getD a [])))
+  let dict := fin (dictCands (dictBuild items) s cq)
+  let ci := fin (ciCands (bitsFor n) (bitsFor (nc.1 + 1)) (bitsFor (nc.2.1 + 1)) n cellAt cq)
+  let want := sortNat bf
+  decide (ll = want) && decide (box = want) && decide (sh1 = want) && decide (sh7 = want) &&
+    decide (dict = want) && decide (ci = want)
+
 def handleQ (self : Bool) (rs tiny : Rat) (arrs : List (List (Pt Rat))) : String :=
   let hss := arrs.map (fun a => a.map (·.h))
   let cs := cellSize rs tiny hss
@@ -108,17 +141,20 @@ def handleQ (self : Bool) (rs tiny : Rat) (arrs : List (List (Pt Rat))) : String
     let sched := ((List.range dst.length).reverse).map (fun i => (i % 2, i))
     let c0 := Cache.run find Cache.reset (sched.filter (fun td => td.2 % 3 ≠ 0))
     let views := if self then (List.range dst.length).map (fun i => (Cache.get find c0 i).2) else bf
-    (d, s, bf, decide (gr = bf), decide (tr = bf), decide (views = bf)))
+    let st := if self then (dst.zip bf).all (fun (q, b) => storeOk rs cs o arrs s src q b) else true
+    (d, s, bf, decide (gr = bf), decide (tr = bf), decide (views = bf), st))
   let gridOk := res.all (fun r => r.2.2.2.1)
   let treeOk := res.all (fun r => r.2.2.2.2.1)
-  let cacheOk := res.all (fun r => r.2.2.2.2.2)
+  let cacheOk := res.all (fun r => r.2.2.2.2.2.1)
+  let storeOk := res.all (fun r => r.2.2.2.2.2.2)
   let blocks := res.map (fun (d, s, bf, _) =>
     "P " ++ toString d ++ ":" ++ toString s ++ ":" ++
       (if bf.isEmpty then "-" else "|".intercalate (bf.map (showList showNat))))
   "cs=" ++ showRat cs ++ " hmin=" ++ (match hm with | some m => showRat m | none => "none") ++
     (if self then " grid=" ++ (if gridOk then "ok" else "BAD") ++
       " tree=" ++ (if treeOk then "ok" else "BAD") ++
-      " cache=" ++ (if cacheOk then "ok" else "BAD") else "") ++
+      " cache=" ++ (if cacheOk then "ok" else "BAD") ++
+      " store=" ++ (if storeOk then "ok" else "BAD") else "") ++
     (if blocks.isEmpty then "" else " " ++ " ".intercalate blocks)
 
 def handle (line : String) : String :=
